@@ -42,7 +42,31 @@ fn lv(offsets: Vec<i32>, sizes: Vec<i32>, child: ArrayRef) -> ArrayRef {
     Arc::new(ListViewArray::new(f, ScalarBuffer::from(offsets), ScalarBuffer::from(sizes), child, None))
 }
 
+fn write_after_finish() {
+    let schema = Arc::new(Schema::new(vec![Field::new("c", DataType::Int32, false)]));
+    let batch = RecordBatch::try_new(schema.clone(), vec![Arc::new(Int32Array::from(vec![1, 2, 3])) as ArrayRef]).unwrap();
+    let mut buf = vec![];
+    let mut w = ArrowWriter::try_new(&mut buf, schema.clone(), None).unwrap();
+    w.write(&batch).unwrap();
+    w.finish().unwrap();
+    let r = w.write(&batch);
+    println!("write after finish: {}", match &r { Ok(()) => "Ok(()) -- accepted, rows are lost".to_string(), Err(e) => format!("error {e}") });
+    drop(w);
+    let n: usize = ParquetRecordBatchReaderBuilder::try_new(Bytes::from(buf)).unwrap().build().unwrap().map(|b| b.unwrap().num_rows()).sum();
+    println!("write after finish: file holds {n} rows");
+}
+
 pub fn run() {
+    write_after_finish();
+    if std::env::var("RUST_BACKTRACE").is_ok() {
+        // locate the panic of the zero-width column
+        let a: ArrayRef = Arc::new(FixedSizeBinaryArray::try_new_with_len(0, arrow_buffer::Buffer::from_vec(Vec::<u8>::new()), None, 3).unwrap());
+        let schema = Arc::new(Schema::new(vec![Field::new("c", a.data_type().clone(), true)]));
+        let batch = RecordBatch::try_new(schema.clone(), vec![a]).unwrap();
+        let mut buf = vec![];
+        let mut w = ArrowWriter::try_new(&mut buf, schema, None).unwrap();
+        let _ = w.write(&batch);
+    }
     let ints: ArrayRef = Arc::new(Int32Array::from(vec![1, 2, 3, 4, 5]));
     let strs: ArrayRef = Arc::new(StringArray::from(vec!["a", "b", "c", "d", "e"]));
     roundtrip("listview ordered", lv(vec![0, 2, 3], vec![2, 1, 2], ints.clone()));
